@@ -238,6 +238,9 @@ pub fn run(a: &Args) {
     {
         r.note("the address alphabet is every u64 with <=3 set bits, <=3 clear bits, every contiguous run of ones (~90k values), their sign-extended and 52-bit-truncated images");
     }
+    if a.shard == 0 {
+        guarded(&mut r, "C06|const-context|unexpected-panic", || "constctx".into(), |r| crate::constctx::addrs(r, "C06"));
+    }
     r.note("all 64 power-of-two alignments x (B64 + multiples of the alignment around 0, the gap, 2^52, 2^64 +-1); ~2000 non-powers of two (2^k+-1, 2^k|2^j, small) must panic");
     r.emit();
 }
